@@ -38,6 +38,18 @@ NOTES = {
     'C04-e': 'needs nan keys: fresh nan objects (each its own group under ==) and None keys are now generated for group_by; the one shared nan object stays excluded for group_by because dict lookup finds it by identity, which == does not describe',
     'C05-e': 'needs a single key with more than 131072 items and a length just past a multiple of 2**16: caught by the thorough tier only (ultra-long single-key scenario, 0.2 % of thorough cases)',
     'C09-e': 'NOT caught, deliberately: rs.math.min is changed only for values of a non-total order (nan in the middle of a key). C09 is about scan folding *the operator\'s accumulator*; which of two incomparable values min() keeps is not specified by any property (C12, not a simulation target, covers finite sequences only)',
+    'C19-f': 'needs the file to be read back at the moment the writer signals completion (file closed only afterwards): the simulated file now buffers writes until flush/close, dump_to_file is driven from a hot source and the file is re-read from inside the completion callback; the written file must be closed by then',
+    'C16-f': 'needs the chunk holding the end of the zstd frame to be exactly k x 131075 bytes: fixed-size re-chunkings and tails aligned on the codecs\' own buffer constants added',
+    'C10-f': 'needs a consumer that changes the length of the emitted batch in place: in-place consumers (drop a header, append a trailer) are generated behind batch/to_list, where the list is handed over',
+    'C14-f': 'needs two different map keys with equal hashes (-1/-2, 0/\'\', n/n+2**61-1): hash-colliding keys added to C14 and to the group_by key functions',
+    'C04-f': 'needs an impure key mapper (asked twice per new group): a round-robin mapper with recorded answers added; the partition model uses one answer per item',
+    'C07-f': 'needs include_closing_item given as 1 / numpy.True_: non-bool flag values added, judged by the partition property only (whether they mean include is not specified)',
+    'C13-f': 'needs an error mapper that returns the exception object it was given: identity mapper added',
+    'C18-f': 'needs a string field that spells another column\'s value (\'42\', \'True\', \'2.5\'): such strings are generated now',
+    'C01-f': 'needs a float state going 0.0 -> -0.0: a running product through signed zeros added',
+    'C03-f': 'needs the sources=[...] form of with_store (several hot sources, each with its own pipeline, sharing one store): added as a C03 scenario with the protocol monitor on every boundary of every pipeline',
+    'C09-f': 'NOT caught, deliberately: emit-before-persist in scan only shows under re-entrant delivery (a subscriber pushing the next item of the same key from inside its own on_next). That breaks the Rx contract that notifications are serialised; no property speaks about it, and the unchanged tree has other operators that are not re-entrant either',
+    'C08-f': 'NOT caught, deliberately: needs a mux error raised inside the last tee_map branch that travels THROUGH the tee_map to a handler placed after it. C13 specifies handlers placed directly after the failing operator, C08 says nothing about errors (the unchanged tee_map forwards an upstream error once per branch)',
     'C08-c': 'NOT caught, deliberately: it only shows when the *same* tee_map observable is subscribed a second time. Re-subscription is not in the property (and is not something rxsci supports in general: the publish() subject of tee_map is created once per pipeline and dies with the first completion - a resubscription oracle raised false alarms on the unchanged tree and was removed)',
     'C13-c': 'NOT caught, deliberately: it needs the same error router to be reused for a second stream lifetime after a first one ended in on_error; the property speaks about one stream ("completes with the stream"), so a single-use router would satisfy it - an oracle for reuse would be stronger than the text',
 }
